@@ -1068,7 +1068,9 @@ def class_matches(prog: dict, t: dict, v) -> bool:
         runtime = {"list": "list", "tuple": "tuple", "set": "set", "frozenset": "frozenset", "dict": "dict", "tdict": "dict",
                    "str": "str"}.get(tag)
         if runtime is None:
-            if tag == "enum" and _enum_base(prog, v[1]) == "str":
+            if tag == "std" and v[1] == "bytes":
+                runtime = "str"  # bytes, like str, is a Sequence / Collection for isinstance
+            elif tag == "enum" and _enum_base(prog, v[1]) == "str":
                 runtime = "str"
             elif tag == "obj" and _flavor(prog, v[1]) == "namedtuple":
                 runtime = "tuple"
